@@ -1,25 +1,89 @@
-(* C02 -- BBS signature binding.  Unconditional part: for an accepted (A, e), no other A' with the
-   same e and no other e' with the same A is accepted on the same inputs. *)
-From ZK Require Import Laws SignProofs.
+(* C02 -- BBS signature binding.  Unconditional part: for an accepted (A, e), no other A' with the same e and no other e'
+   with the same A is accepted on the same inputs (hence every edit confined to one field of the 80-byte encoding, in
+   particular each of the 640 single-bit flips, is rejected: with codec canonicity, C09).
+   Reduction part: acceptance of one signature for two different (messages, header) of the same length CONSTRUCTS a
+   collision of the message hash, a collision of the domain hash, or a non-trivial discrete-log relation among Q1, H_i. *)
+From ZK Require Import Laws SignProofs UpdateProofs Separation Binding.
 
-Theorem C02_verify_rejects_other_A : forall (E : env) (LW : Laws E) pk A A' e ms g header api,
+Theorem C02_verify_rejects_other_A :
+  forall (E : env) (LW : Laws E) pk A A' e ms g header api,
   core_verify E pk {| sig_A := A; sig_e := e |} ms g header api = Ok tt ->
   A' <> A -> fadd (SO E) (dl2 E LW pk) e <> f0 (SO E) ->
   core_verify E pk {| sig_A := A'; sig_e := e |} ms g header api = Err.
 Proof. exact verify_rejects_other_A. Qed.
-Check (C02_verify_rejects_other_A : forall (E : env) (LW : Laws E) pk A A' e ms g header api,
+Check (C02_verify_rejects_other_A :
+  forall (E : env) (LW : Laws E) pk A A' e ms g header api,
   core_verify E pk {| sig_A := A; sig_e := e |} ms g header api = Ok tt ->
   A' <> A -> fadd (SO E) (dl2 E LW pk) e <> f0 (SO E) ->
   core_verify E pk {| sig_A := A'; sig_e := e |} ms g header api = Err).
 Print Assumptions C02_verify_rejects_other_A.
 
-Theorem C02_verify_rejects_other_e : forall (E : env) (LW : Laws E) pk A e e' ms g header api,
+Theorem C02_verify_rejects_other_e :
+  forall (E : env) (LW : Laws E) pk A e e' ms g header api,
   core_verify E pk {| sig_A := A; sig_e := e |} ms g header api = Ok tt ->
   e' <> e -> A <> g1_zero (PR E) ->
   core_verify E pk {| sig_A := A; sig_e := e' |} ms g header api = Err.
 Proof. exact verify_rejects_other_e. Qed.
-Check (C02_verify_rejects_other_e : forall (E : env) (LW : Laws E) pk A e e' ms g header api,
+Check (C02_verify_rejects_other_e :
+  forall (E : env) (LW : Laws E) pk A e e' ms g header api,
   core_verify E pk {| sig_A := A; sig_e := e |} ms g header api = Ok tt ->
   e' <> e -> A <> g1_zero (PR E) ->
   core_verify E pk {| sig_A := A; sig_e := e' |} ms g header api = Err).
 Print Assumptions C02_verify_rejects_other_e.
+
+(* message byte change / swap / replacement, header change (None = empty): same length *)
+Theorem C02_verify_binding :
+  forall (E : env) (LW : Laws E) s pk msgs msgs' header header',
+  suite_ok E ->
+  verify E s pk (Some msgs) header = Ok tt ->
+  verify E s pk (Some msgs') header' = Ok tt ->
+  length msgs = length msgs' ->
+  (len (option_default [] header) <= usize_max)%N -> (len (option_default [] header') <= usize_max)%N ->
+  (msgs <> msgs' \/ option_default [] header <> option_default [] header') ->
+  (exists i, (i < length msgs)%nat /\ nth i msgs [] <> nth i msgs' [] /\ hm E (nth i msgs []) = hm E (nth i msgs' [])) \/
+  (exists Q1 H dm dm',
+     DLRelation E LW (Q1 :: H) (fsub (SO E) dm dm' :: zip_sub E (map (hm E) msgs) (map (hm E) msgs')) \/
+     Collision (fun x => f_of_okm (SO E) (expand E x (c_api_id (cs E) ++ c_h2s (cs E)) 48))
+               (dom_input E pk Q1 H header (c_api_id (cs E))) (dom_input E pk Q1 H header' (c_api_id (cs E)))).
+Proof. exact verify_binding. Qed.
+Check (C02_verify_binding :
+  forall (E : env) (LW : Laws E) s pk msgs msgs' header header',
+  suite_ok E ->
+  verify E s pk (Some msgs) header = Ok tt ->
+  verify E s pk (Some msgs') header' = Ok tt ->
+  length msgs = length msgs' ->
+  (len (option_default [] header) <= usize_max)%N -> (len (option_default [] header') <= usize_max)%N ->
+  (msgs <> msgs' \/ option_default [] header <> option_default [] header') ->
+  (exists i, (i < length msgs)%nat /\ nth i msgs [] <> nth i msgs' [] /\ hm E (nth i msgs []) = hm E (nth i msgs' [])) \/
+  (exists Q1 H dm dm',
+     DLRelation E LW (Q1 :: H) (fsub (SO E) dm dm' :: zip_sub E (map (hm E) msgs) (map (hm E) msgs')) \/
+     Collision (fun x => f_of_okm (SO E) (expand E x (c_api_id (cs E) ++ c_h2s (cs E)) 48))
+               (dom_input E pk Q1 H header (c_api_id (cs E))) (dom_input E pk Q1 H header' (c_api_id (cs E))))).
+Print Assumptions C02_verify_binding.
+
+Theorem C02_verify_binding_core :
+  forall (E : env) (LW : Laws E) pk s ms ms' g header header' api,
+  core_verify E pk s ms g header api = Ok tt ->
+  core_verify E pk s ms' g header' api = Ok tt ->
+  (len (option_default [] header) <= usize_max)%N -> (len (option_default [] header') <= usize_max)%N ->
+  (ms <> ms' \/ option_default [] header <> option_default [] header') ->
+  exists Q1 H, g_values E g = Q1 :: H /\
+    (DLRelation E LW (Q1 :: H) ((fsub (SO E) (f_of_okm (SO E) (expand E (dom_input E pk Q1 H header api) (api ++ c_h2s (cs E)) 48))
+                                   (f_of_okm (SO E) (expand E (dom_input E pk Q1 H header' api) (api ++ c_h2s (cs E)) 48)))
+                            :: zip_sub E ms ms')
+     \/ Collision (fun x => f_of_okm (SO E) (expand E x (api ++ c_h2s (cs E)) 48))
+                  (dom_input E pk Q1 H header api) (dom_input E pk Q1 H header' api)).
+Proof. exact verify_binding_core. Qed.
+Check (C02_verify_binding_core :
+  forall (E : env) (LW : Laws E) pk s ms ms' g header header' api,
+  core_verify E pk s ms g header api = Ok tt ->
+  core_verify E pk s ms' g header' api = Ok tt ->
+  (len (option_default [] header) <= usize_max)%N -> (len (option_default [] header') <= usize_max)%N ->
+  (ms <> ms' \/ option_default [] header <> option_default [] header') ->
+  exists Q1 H, g_values E g = Q1 :: H /\
+    (DLRelation E LW (Q1 :: H) ((fsub (SO E) (f_of_okm (SO E) (expand E (dom_input E pk Q1 H header api) (api ++ c_h2s (cs E)) 48))
+                                   (f_of_okm (SO E) (expand E (dom_input E pk Q1 H header' api) (api ++ c_h2s (cs E)) 48)))
+                            :: zip_sub E ms ms')
+     \/ Collision (fun x => f_of_okm (SO E) (expand E x (api ++ c_h2s (cs E)) 48))
+                  (dom_input E pk Q1 H header api) (dom_input E pk Q1 H header' api))).
+Print Assumptions C02_verify_binding_core.
